@@ -22,10 +22,10 @@ ASSUMPTIONS = ["static/dynamic classes are decided by the documented rule restat
 BUDGET = {"quick": 12000, "thorough": 400000}
 
 STATIC = {
-    "text": ["foo", "bar123", "https://my-site.com/x?y=1", "foo bar", "a.b", "N/A", "q_1"], "integer": ["5", "-3", "0"],
+    "text": ["foo", "bar123", "https://my-site.com/x?y=1", "foo bar", "a.b", "N/A", "q_1", "mod", "div", "no mod", "div or mod", "and", "or", "mod."], "integer": ["5", "-3", "0"],
     "decimal": ["1.5", "-0.25", "-.5", ".75", "-.25"], "date": ["2022-03-14", "1999-12-31"],
     "time": ["01:02:55", "01:02:55.000-07:00", "01:02:55.000+10:00", "23:59:59.5Z"], "dateTime": ["2022-03-14T01:02:55Z", "2022-03-14T01:02:55.000+10:00", "2022-03-14T01:02:55.25-03:30"],
-    "geopoint": ["32.7 -117.1 14 5.01", "-1.5 36.8 0 0"], "geotrace": ["1 -2 0 0;3 -4 0 0"], "note": ["n"], "select_one": ["c1"],
+    "geopoint": ["32.7 -117.1 14 5.01", "-1.5 36.8 0 0"], "geotrace": ["1 -2 0 0;3 -4 0 0"], "note": ["n"], "select_one": ["c1", "mod", "div"],
     "select_multiple": ["c1 c2", "c1"], "image": ["a.png"], "barcode": ["b77"], "range": ["3"], "hidden": ["hv"], "acknowledge": ["OK"],
     "calculate": ["plain"],
 }
@@ -83,6 +83,14 @@ def _cases(draw):
                         {"k": "q", "c": {"type": "text", "name": g.name(), "label": "in", "default": "uuid()"}}]}
                 nodes.insert(nodes.index(n) + (1 if g.p("_", 0.6) else 0), sib)
     add_prefix_siblings(form["nodes"])
+    if g.p("_", 0.08):
+        # a repeat reached through several group levels inside another repeat: still one template copy and one live copy per level
+        u = str(g.integer(100, 999))
+        inner = {"k": "r", "c": {"name": "ir" + u, "label": "IR"}, "ch": [
+            {"k": "q", "c": {"type": "text", "name": "iq" + u, "label": "in", "default": g.pick(["foo", "bar123", "mod"])}}]}
+        for d in range(g.integer(1, 3)):
+            inner = {"k": "g", "c": {"name": f"ig{d}_{u}", "label": "IG"}, "ch": [inner]}
+        form["nodes"].append({"k": "r", "c": {"name": "or" + u, "label": "OR"}, "ch": [inner]})
     # triggered calculations whose whole text is a boolean alias
     for n, _ in model.walk(form["nodes"]):
         if n["k"] == "q" and "trigger" in n["c"] and "calculation" in n["c"] and g.p("_", 0.2):
@@ -179,6 +187,11 @@ def check(out, form, v):
                     out.fail("C10.static", "text", f"{n.path}: node text {text!r}, expected {want_static!r}")
                 if any((e.text or "") != text for e in copies):
                     out.fail("C10.static", "template", f"{n.path}: template copy differs: {[e.text for e in copies]}")
+                # "and nowhere else": one live copy, plus one copy in the template of the outermost enclosing repeat (which holds the
+                # templates of the repeats inside it)
+                k = sum(1 for a in n.ancestors() if a.kind == "r")
+                if len(copies) != (2 if k else 1):
+                    out.fail("C10.static", "copies", f"{n.path}: the literal appears in {len(copies)} nodes, expected {2 if k else 1} ({k} enclosing repeat(s))")
                 if base != "calculate" and "calculation" not in c:
                     calc = xform.attrs(bm[n.path][0]).get("calculate") if n.path in bm else None
                     if calc is not None:
@@ -222,8 +235,21 @@ def check(out, form, v):
                     # documented: yes/no spellings of a calculation are normalised to true()/false(), with or without a trigger
                     cc = common.survey_clean(calc)
                     cc = "true()" if cc in expect.BIND_TRUE else "false()" if cc in expect.BIND_FALSE else cc
-                    if val is None or refs.match_substituted(cc, val) is None:
+                    toks = None if val is None else refs.match_substituted(cc, val)
+                    if toks is None:
                         out.fail("C10.trigger", "value", f"{n.path}: action value {val!r} is not calculation {calc!r} substituted")
+                    else:
+                        # "with its calculation": the references are read from the calculated node (the action's ref is the context)
+                        _, rr2 = refs.split_source(cc)
+                        ctx = xform.resolve(inst, n.path)
+                        ctx = ctx[0] if len(ctx) == 1 else None
+                        for tok, (ls2, name2) in zip(toks, rr2):
+                            t2 = names.get(name2)
+                            if not t2 or len(t2) != 1 or ctx is None:
+                                continue
+                            bad = refs.check_token(tok, inst, ctx, t2[0].path, last_saved=ls2, must_relative=refs.must_be_relative(n, t2[0]) or None)
+                            if bad:
+                                out.fail("C10.trigger", "value-ref:" + bad[0], f"{n.path}: calculation {calc!r}: {bad[1]}")
                 elif val is not None and base != "background-geopoint":
                     out.fail("C10.trigger", "value-invented", f"{n.path}: action value {val!r} but no calculation")
             out.checked("C10.no-calculate-with-trigger")
